@@ -10,6 +10,7 @@ import (
 	"encoding/binary"
 	"fmt"
 	"io"
+	"os"
 	"testing"
 	"time"
 
@@ -483,13 +484,23 @@ func c18CertRunB(c c18CertB, v *vlib.Verdict) {
 	cert := base.value()
 	enc, fields := c18HandEncode(cert)
 	in := wire.Mutate(enc, fields, c.Muts, 0)
+	if len(c.Muts) == 0 {
+		c18CertBytesB(in, cert, v)
+	} else {
+		c18CertBytesB(in, nil, v)
+	}
+}
+
+// c18CertBytesB is the decode -> encode -> decode oracle on raw bytes. valid,
+// when not nil, is the value the bytes were built from by hand (unmutated).
+func c18CertBytesB(in []byte, valid *Certificate, v *vlib.Verdict) {
 	st := &wire.Stream{Data: in}
 	val := new(Certificate)
 	var err error
 	if vlib.Guard(v, func() { _, err = val.ReadFrom(st) }) {
 		return
 	}
-	if len(c.Muts) == 0 {
+	if cert := valid; cert != nil {
 		// harness self-check: the hand-built encoding of a representable value must be what the decoder understands
 		if err != nil {
 			v.Failf("C18:decode-rejects-valid-encoding:certs.Certificate", "ReadFrom rejects a hand-built valid encoding (%d names): %v", len(cert.IDChunk.Blocks), err)
@@ -543,7 +554,34 @@ func TestVerifC18CertDecEncDec(t *testing.T) {
 			// trailing bytes first: field offsets stay valid, and a decoder that now stops early or reads on still finds bytes
 			c.Muts = append(c.Muts, wire.Mut{Op: 2, A: rapid.Uint64().Draw(t, "tseed"), B: rapid.SampledFrom([]int{1, 2, 64, 300}).Draw(t, "tn")})
 		}
+		if rapid.IntRange(0, 2).Draw(t, "aimed") == 0 {
+			// edits that ReadFrom is known to tolerate (field order of c18HandEncode): non-zero reserved bytes, a chunk
+			// length one short, a block size larger than its label needs
+			aim := rapid.SampledFrom([][2]int{{1, 3}, {1, 5}, {2, 2}, {3, 3}, {3, 4}, {6, 3}}).Draw(t, "aim")
+			c.Muts = append(c.Muts, wire.Mut{Op: 0, A: uint64(aim[0]), B: aim[1]})
+		}
 		c.Muts = append(c.Muts, wire.GenMuts(t, 0, 3)...)
 		return c
 	}})
+}
+
+// FuzzVerifC18Certificate: native fuzzing of the decode -> encode -> decode
+// oracle (only does work when VERIF_FUZZ is set; thorough tier).
+func FuzzVerifC18Certificate(f *testing.F) {
+	if os.Getenv("VERIF_FUZZ") == "" {
+		f.Skip("native fuzzing runs in the thorough tier only")
+	}
+	for _, c := range []c18Cert{{Version: 1, Type: 1, Issued: 1, Expires: 2}, {Version: 1, Type: 3, Issued: 1700000000, Expires: 1800000000, Seed: 5, Names: []c18Name{{Type: 1, Len: 11, Seed: 1}, {Type: 0, Len: 252, Seed: 2}}}} {
+		enc, _ := c18HandEncode(c.value())
+		f.Add(enc)
+	}
+	f.Fuzz(func(t *testing.T, in []byte) {
+		var v vlib.Verdict
+		c18CertBytesB(in, nil, &v)
+		for _, vi := range v.Violations {
+			if !vlib.KnownOpen(vi.Sig) {
+				t.Fatalf("VERIF-VIOLATION sig=%s detail=%s", vi.Sig, vi.Detail)
+			}
+		}
+	})
 }
